@@ -124,7 +124,7 @@ class Enum(SerializableField, metaclass=_EnumMeta):
     def _validate(self, value):
         if self._is_enum:
             enum_names = {v.name for v in self._valid_enum_values}
-            if value not in enum_names and value not in self._valid_enum_values:
+            if not (isinstance(value, str) and value in enum_names) and value not in self._valid_enum_values:
                 enum_values = [r.name for r in self._valid_enum_values]
                 if len(enum_values) < 11:
                     raise ValueError(
